@@ -109,6 +109,8 @@ spifconf_init_subsystem(void)
 unsigned char
 spifconf_register_context(spif_charptr_t name, ctx_handler_t handler)
 {
+    unsigned char id;
+
     ASSERT_RVAL(!SPIF_PTR_ISNULL(name), (unsigned char) -1);
     ASSERT_RVAL(!SPIF_PTR_ISNULL(handler), (unsigned char) -1);
 
@@ -117,13 +119,16 @@ spifconf_register_context(spif_charptr_t name, ctx_handler_t handler)
             ctx_cnt *= 2;
             context = (ctx_t *) REALLOC(context, sizeof(ctx_t) * ctx_cnt);
         }
+        id = ctx_idx;
     } else {
+        /* Replacing the handler of the built-in "null" context:  it lives in slot 0. */
         FREE(context[0].name);
+        id = 0;
     }
-    context[ctx_idx].name = (spif_charptr_t) STRDUP(name);
-    context[ctx_idx].handler = handler;
-    D_CONF(("Added context \"%s\" with ID %d and handler 0x%08x\n", context[ctx_idx].name, ctx_idx, context[ctx_idx].handler));
-    return (ctx_idx);
+    context[id].name = (spif_charptr_t) STRDUP(name);
+    context[id].handler = handler;
+    D_CONF(("Added context \"%s\" with ID %d and handler 0x%08x\n", context[id].name, id, context[id].handler));
+    return (id);
 }
 
 /* Register a new file state structure */
